@@ -62,9 +62,22 @@ def _check_rodrigues(ctx, ax, ay, az, tag='', k=0):
     ex = n2 * c * vx + n * s * cx + (1 - c) * dot * ax
     ey = n2 * c * vy + n * s * cy + (1 - c) * dot * ay
     ez = n2 * c * vz + n * s * cz + (1 - c) * dot * az
-    ctx.claim(tag + 'x', eq(n2 * r.x, ex))
-    ctx.claim(tag + 'y', eq(n2 * r.y, ey))
-    ctx.claim(tag + 'z', eq(n2 * r.z, ez))
+    if ctx.native:
+        # natively the comparison is made on the rotated vector itself (dividing by |a|^2), so that it keeps its
+        # meaning for very short axes
+        scale = 1e-9 * (1.0 + abs(vx) + abs(vy) + abs(vz))
+        ctx.claim(tag + 'x', abs(r.x - ex / n2) <= scale, detail='%r vs %r' % (r.x, ex / n2))
+        ctx.claim(tag + 'y', abs(r.y - ey / n2) <= scale, detail='%r vs %r' % (r.y, ey / n2))
+        ctx.claim(tag + 'z', abs(r.z - ez / n2) <= scale, detail='%r vs %r' % (r.z, ez / n2))
+        return
+    from symx.core import lift_real
+    for nm, got, want in (('x', r.x, ex), ('y', r.y, ey), ('z', r.z, ez)):
+        c_ = eq(n2 * got, want)
+        if hasattr(c_, 'gap'):
+            # when the claim fails, a counterexample is preferred in which the rotated vector itself (not the vector
+            # times |a|^2) is visibly off: the native replay compares on that scale
+            c_.gap = lift_real(got) - lift_real(want) / lift_real(n2)
+        ctx.claim(tag + nm, c_)
 
 
 def mk_plane(zero, turns=0):
@@ -75,8 +88,47 @@ def mk_plane(zero, turns=0):
         for k in 'xyz':
             comps[k] = 0.0 if k == zero else ctx.real('a' + k, -10, 10)
         others = [comps[k] for k in 'xyz' if k != zero]
-        ctx.assume(Not(And(eq(others[0], 0), eq(others[1], 0))))
+        if ctx.native:
+            ctx.assume(not (others[0] == 0 and others[1] == 0))      # exactly: a very short axis is a non-zero axis
+        else:
+            ctx.assume(Not(And(eq(others[0], 0), eq(others[1], 0))))
         _check_rodrigues(ctx, comps['x'], comps['y'], comps['z'], k=turns)
+    return body
+
+
+def mk_short_axis(zero):
+    """the rotation does not depend on the length of the axis vector: axes far shorter than any coordinate (components
+    below 2^-30, one of them exactly 0) with vectors of ordinary size.  The claim is made with the tolerance of the
+    native comparison (1e-9 on the rotated vector), so that only a visibly wrong rotation fails it."""
+    def body(ctx):
+        S = 2.0 ** -30
+        comps = {}
+        for k_ in 'xyz':
+            comps[k_] = 0.0 if k_ == zero else ctx.real('a' + k_, -S, S)
+        others = [comps[k_] for k_ in 'xyz' if k_ != zero]
+        if ctx.native:
+            ctx.assume(not (others[0] == 0 and others[1] == 0))
+        else:
+            ctx.assume(Not(And(eq(others[0], 0), eq(others[1], 0))))
+        import propka.vector_algebra as V
+        theta, s, c = _theta(ctx, 0)
+        v = [ctx.real('v' + k_, -10, 10) for k_ in 'xyz']
+        for vi in v:
+            # vector components are 0 or of ordinary size (the subject is the short axis, not a short vector)
+            ctx.assume(Or(eq(vi, 0), ge(vi, 0.5), le(vi, -0.5)) if not ctx.native else (vi == 0 or abs(vi) >= 0.5))
+        ax, ay, az = comps['x'], comps['y'], comps['z']
+        r = V.rotate_vector_around_an_axis(theta, V.Vector(ax, ay, az), V.Vector(*v))
+        n2 = ax * ax + ay * ay + az * az
+        n = math.sqrt(n2) if ctx.native else __import__('symx.core', fromlist=['ssqrt']).ssqrt(n2)
+        vx, vy, vz = v
+        cr = (ay * vz - az * vy, az * vx - ax * vz, ax * vy - ay * vx)
+        dot = ax * vx + ay * vy + az * vz
+        want = [n2 * c * vi + n * s * ci + (1 - c) * dot * ai for vi, ci, ai in zip(v, cr, (ax, ay, az))]
+        for nm, got, w in zip('xyz', (r.x, r.y, r.z), want):
+            if ctx.native:
+                ctx.claim(nm, abs(got - w / n2) <= 1e-6, detail='%r vs %r' % (got, w / n2))
+            else:
+                ctx.claim(nm, And(le(n2 * got - w, n2 * 1e-6), le(w - n2 * got, n2 * 1e-6)))
     return body
 
 
@@ -137,7 +189,11 @@ def obligations(tier):
                               bounds='axis component %s = 0, the other two in [-10,10] not both 0 (both signs, incl. along a coordinate axis); '
                                      'angle any (sin,cos) on the unit circle; vector in [-10,10]^3' % zero,
                               claim_doc='|a|^2 * result = Rodrigues(theta, a, v) * |a|^2, per coordinate',
-                              query_timeout_ms=30000, wall_s=200))
+                              query_timeout_ms=30000, wall_s=200, stop_on_violation=False))
+    for zero in 'xyz':
+        obs.append(Obligation('O1-short-axis-%s-zero' % zero, mk_short_axis(zero), code=code,
+                              bounds='axis component %s = 0, the other two in [-2^-30, 2^-30] not both 0; angle any; vector components 0 or of magnitude in [0.5, 10]' % zero,
+                              claim_doc='result within 1e-6 of the Rodrigues rotation (the rotation does not depend on the length of the axis)', query_timeout_ms=30000, wall_s=200))
     for a in generic_axes(tier):
         obs.append(Obligation('O2-axis(%d,%d,%d)' % a, mk_generic(a), code=code,
                               bounds='concrete generic axis %r (radicals kept exact); angle any; vector in [-10,10]^3' % (a,),
@@ -151,7 +207,7 @@ def obligations(tier):
         for zero in 'xyz':
             obs.append(Obligation('O1-axis-%s-zero[%+d turns]' % (zero, k), mk_plane(zero, k), code=code,
                                   bounds='as O1-axis-%s-zero with the angle %+d whole turns away from its principal value' % (zero, k),
-                                  claim_doc='as O1', query_timeout_ms=30000, wall_s=200))
+                                  claim_doc='as O1', query_timeout_ms=30000, wall_s=200, stop_on_violation=False))
         for a in generic_axes(tier)[::5 if tier == 'quick' else 3]:
             obs.append(Obligation('O2-axis(%d,%d,%d)[%+d turns]' % (a + (k,)), mk_generic(a, k), code=code,
                                   bounds='concrete generic axis %r; angle %+d whole turns away from its principal value' % (a, k),
